@@ -125,7 +125,12 @@ class TokenFile:
             if _verif.ACTIVE:
                 _verif.emit("tok.file.delete", name=self.path.name)
                 _verif.pause("delete.checked")
-            self.path.unlink()
+            try:
+                self.path.unlink()
+            except FileNotFoundError:
+                # Removed in the meantime (e.g. by another scheduler that was
+                # watching the job holding this token)
+                pass
 
     def watch(self):
         """Watch the matching process"""
